@@ -1,8 +1,997 @@
-//! Property check C18 (see /verif/DESIGN.md §4).
-use mc::{Level, Report};
+//! Property check C18 — materialized output is independent of emission order.
+//!
+//! Exhaustive enumeration (no sampling) over a stated finite space, on the real
+//! `MaterializationBus` / `ReduceOp` / `compute_emissions_digest` / frame encoders:
+//!
+//! * Phase A (order):   every slot set of size ≤ k from a slot alphabet × a 12-member payload
+//!   assignment family × EVERY permutation of the emission order × every policy pair
+//!   (11 options per channel: unregistered, Log, StrictSingle, Reduce × 8).
+//! * Phase B (algebra): every slot set of size ≤ k from the 8-slot alphabet × EVERY payload
+//!   assignment (6^k) × every policy (same on both channels) × 2 emission orders; reference fold;
+//!   re-keying closure for the reducers that declare `is_commutative()`.
+//! * Phase C (duplicates): every slot set of size ≤ kd × every permutation × every emitted slot
+//!   re-emitted at every later position with every payload × every policy.
+//!
+//! The reference (`reference_finalize`, `ref_reduce`, `ref_digest`, `ref_frames`, `ref_v2`) is
+//! written from the property text / documented wire formats with plain sorts and loops.
+
+use mc::{json, Level, Report, Value};
+use rayon::prelude::*;
+use std::collections::{BTreeMap, BTreeSet};
+use warp_core::compute_emissions_digest;
+use warp_core::materialization::{
+    compute_value_hash, decode_frames, decode_v2_packet, encode_frames, encode_v2_packet,
+    make_channel_id, ChannelId, ChannelPolicy, EmissionPort, EmitKey, FinalizedChannel,
+    MaterializationBus, MaterializationErrorKind, MaterializationFrame, MaterializationPort,
+    ReduceOp, ScopedEmitter, V2Entry, V2PacketHeader,
+};
+use warp_core::WarpId;
+
+// ───────────────────────────── universe ─────────────────────────────
+
+#[derive(Clone, Copy, Debug)]
+struct Slot {
+    ch: usize,
+    scope: usize,
+    rule: usize,
+    sub: usize,
+}
+
+struct U {
+    channels: [ChannelId; 2],
+    scopes: [[u8; 32]; 3],
+    rules: [u32; 2],
+    subs: [u32; 2],
+    payloads: Vec<Vec<u8>>,
+    slots: Vec<Slot>,
+    header: V2PacketHeader,
+}
+
+const N_POL: usize = 11;
+const CHN: [&str; 2] = ["a", "b"];
+const OPS: [ReduceOp; 8] = [
+    ReduceOp::Sum,
+    ReduceOp::Max,
+    ReduceOp::Min,
+    ReduceOp::BitOr,
+    ReduceOp::BitAnd,
+    ReduceOp::First,
+    ReduceOp::Last,
+    ReduceOp::Concat,
+];
+
+/// Policy option index → (registered policy or None = channel left unregistered).
+fn policy_of(i: usize) -> Option<ChannelPolicy> {
+    match i {
+        0 => None,
+        1 => Some(ChannelPolicy::Log),
+        2 => Some(ChannelPolicy::StrictSingle),
+        n => Some(ChannelPolicy::Reduce(OPS[n - 3])),
+    }
+}
+
+fn policy_name(i: usize) -> String {
+    match i {
+        0 => "Unregistered(Log)".into(),
+        1 => "Log".into(),
+        2 => "StrictSingle".into(),
+        n => format!("Reduce({:?})", OPS[n - 3]),
+    }
+}
+
+impl U {
+    fn new() -> U {
+        let mut s0 = [0u8; 32];
+        s0[31] = 1; // small "numerically", smallest lexicographically
+        let mut s1 = [0u8; 32];
+        s1[0] = 1; // first byte decides: s1 > s0 although its tail is zero
+        let s2 = [0xFFu8; 32];
+        // (channel, scope, rule, subkey) — chosen so that every component of the key order is a
+        // tie-breaker somewhere, the same key occurs in both channels, and rule/subkey pairs
+        // (1, 256) / (0, 0x0100_0000) order differently numerically and as little-endian bytes.
+        let slots = vec![
+            Slot { ch: 0, scope: 0, rule: 0, sub: 0 },
+            Slot { ch: 0, scope: 0, rule: 0, sub: 1 },
+            Slot { ch: 0, scope: 0, rule: 1, sub: 0 },
+            Slot { ch: 0, scope: 1, rule: 0, sub: 0 },
+            Slot { ch: 0, scope: 2, rule: 1, sub: 1 },
+            Slot { ch: 1, scope: 0, rule: 0, sub: 0 },
+            Slot { ch: 1, scope: 1, rule: 1, sub: 1 },
+            Slot { ch: 1, scope: 2, rule: 0, sub: 0 },
+            // thorough only (phase A):
+            Slot { ch: 0, scope: 2, rule: 0, sub: 1 },
+            Slot { ch: 1, scope: 0, rule: 1, sub: 0 },
+        ];
+        U {
+            channels: [make_channel_id("verif:c18:a"), make_channel_id("verif:c18:b")],
+            scopes: [s0, s1, s2],
+            rules: [1, 256],
+            subs: [0, 0x0100_0000],
+            payloads: vec![
+                vec![],
+                vec![0x01],
+                vec![0xFF],
+                vec![0x01, 0x02],
+                vec![0xFF; 8],                                            // u64::MAX: Sum wraps
+                vec![0x00, 0x00, 0x00, 0x00, 0x00, 0x00, 0x00, 0x80, 0x7F], // 9 bytes: Sum truncates
+            ],
+            slots,
+            header: V2PacketHeader {
+                session_id: [0x11; 32],
+                cursor_id: [0x22; 32],
+                worldline_id: [0x33; 32],
+                warp_id: WarpId([0x44; 32]),
+                tick: 0x0102_0304_0506_0708,
+                commit_hash: [0x55; 32],
+            },
+        }
+    }
+    fn key(&self, s: Slot) -> EmitKey {
+        EmitKey::with_subkey(self.scopes[s.scope], self.rules[s.rule], self.subs[s.sub])
+    }
+}
+
+// ───────────────────────────── observation of the real code ─────────────────────────────
+
+#[derive(Clone, PartialEq, Eq, Debug)]
+struct Outcome {
+    channels: Vec<([u8; 32], Vec<u8>)>,
+    errors: Vec<([u8; 32], usize, String)>,
+    digest: [u8; 32],
+    frames: Vec<u8>,
+    v2: Vec<u8>,
+}
+
+/// One emission: (slot index, payload index).
+type Em = (usize, usize);
+
+fn emit_one(u: &U, bus: &MaterializationBus, em: Em, scoped: bool) -> Result<(), (ChannelId, EmitKey)> {
+    let s = u.slots[em.0];
+    let data = u.payloads[em.1].clone();
+    let ch = u.channels[s.ch];
+    let r = if scoped {
+        // The path rules use: ScopedEmitter derives the key from (scope, rule) (+ subkey).
+        let e = ScopedEmitter::new(bus, u.scopes[s.scope], u.rules[s.rule]);
+        if u.subs[s.sub] == 0 {
+            e.emit(ch, data)
+        } else {
+            e.emit_with_subkey(ch, u.subs[s.sub], data)
+        }
+    } else {
+        bus.emit(ch, u.key(s), data)
+    };
+    r.map_err(|d| (d.channel, d.key))
+}
+
+fn new_bus(u: &U, pol: (usize, usize)) -> MaterializationBus {
+    let mut bus = MaterializationBus::new();
+    if let Some(p) = policy_of(pol.0) {
+        bus.register_channel(u.channels[0], p);
+    }
+    if let Some(p) = policy_of(pol.1) {
+        bus.register_channel(u.channels[1], p);
+    }
+    bus
+}
+
+fn observe(u: &U, bus: &MaterializationBus, light: bool) -> (Outcome, Vec<FinalizedChannel>) {
+    let rep = bus.finalize();
+    let channels: Vec<([u8; 32], Vec<u8>)> =
+        rep.channels.iter().map(|c| (c.channel.0, c.data.clone())).collect();
+    let errors = rep
+        .errors
+        .iter()
+        .map(|e| {
+            let k = match e.kind {
+                MaterializationErrorKind::StrictSingleConflict => "StrictSingleConflict".to_string(),
+            };
+            (e.channel.0, e.emission_count, k)
+        })
+        .collect();
+    let digest = compute_emissions_digest(&rep.channels);
+    let (frames, v2) = if light {
+        (Vec::new(), Vec::new())
+    } else {
+        let fr: Vec<MaterializationFrame> = rep
+            .channels
+            .iter()
+            .map(|c| MaterializationFrame::new(c.channel, c.data.clone()))
+            .collect();
+        let entries: Vec<V2Entry> = rep
+            .channels
+            .iter()
+            .map(|c| V2Entry {
+                channel: c.channel,
+                value_hash: compute_value_hash(&c.data),
+                value: c.data.clone(),
+            })
+            .collect();
+        (
+            encode_frames(&fr),
+            encode_v2_packet(&u.header, &entries).unwrap_or_else(|_| b"ENCODE-ERROR".to_vec()),
+        )
+    };
+    (
+        Outcome { channels, errors, digest, frames, v2 },
+        rep.channels,
+    )
+}
+
+/// Emit `ems` in the order given by `order` (indices into `ems`) on a fresh bus and finalize.
+fn run(u: &U, ems: &[Em], order: &[usize], pol: (usize, usize), scoped: bool, light: bool) -> Result<(Outcome, Vec<FinalizedChannel>), String> {
+    let bus = new_bus(u, pol);
+    for &i in order {
+        if let Err((c, k)) = emit_one(u, &bus, ems[i], scoped) {
+            return Err(format!("unexpected DuplicateEmission for fresh key: channel {} key {:?}", mc::hex(&c.0[..4]), k));
+        }
+    }
+    if bus.is_empty() != ems.is_empty() {
+        return Err("is_empty() disagrees with number of emissions".into());
+    }
+    let o = observe(u, &bus, light);
+    if !bus.is_empty() {
+        return Err("bus not empty after finalize".into());
+    }
+    Ok(o)
+}
+
+// ───────────────────────────── reference model (from the property text) ─────────────────────────────
+
+/// Reduce a list of payloads that is already in canonical key order.
+fn ref_reduce(op: ReduceOp, vals_in_key_order: &[&Vec<u8>]) -> Vec<u8> {
+    let vals = vals_in_key_order;
+    if vals.is_empty() {
+        return if op == ReduceOp::Sum { vec![0; 8] } else { vec![] };
+    }
+    // For the five documented commutative monoids the reference deliberately works on the SORTED
+    // MULTISET of payloads, i.e. it cannot depend on keys at all.
+    let mut multiset: Vec<&Vec<u8>> = vals.to_vec();
+    multiset.sort();
+    match op {
+        ReduceOp::Sum => {
+            let mut acc: u64 = 0;
+            for v in &multiset {
+                let mut b = [0u8; 8];
+                for i in 0..8.min(v.len()) {
+                    b[i] = v[i];
+                }
+                acc = acc.wrapping_add(u64::from_le_bytes(b));
+            }
+            acc.to_le_bytes().to_vec()
+        }
+        ReduceOp::Max => (*multiset.last().unwrap()).clone(),
+        ReduceOp::Min => (*multiset.first().unwrap()).clone(),
+        ReduceOp::BitOr => {
+            let n = multiset.iter().map(|v| v.len()).max().unwrap();
+            (0..n)
+                .map(|i| multiset.iter().fold(0u8, |a, v| a | v.get(i).copied().unwrap_or(0)))
+                .collect()
+        }
+        ReduceOp::BitAnd => {
+            let n = multiset.iter().map(|v| v.len()).min().unwrap();
+            (0..n).map(|i| multiset.iter().fold(0xFFu8, |a, v| a & v[i])).collect()
+        }
+        ReduceOp::First => vals[0].clone(),
+        ReduceOp::Last => vals[vals.len() - 1].clone(),
+        ReduceOp::Concat => vals.iter().flat_map(|v| v.iter().copied()).collect(),
+    }
+}
+
+struct RefOut {
+    channels: Vec<([u8; 32], Vec<u8>)>,
+    errors: Vec<([u8; 32], usize, String)>,
+}
+
+fn reference_finalize(u: &U, ems: &[Em], pol: (usize, usize)) -> RefOut {
+    // channel bytes -> sorted (scope bytes, rule, subkey) -> payload
+    let mut per: BTreeMap<[u8; 32], Vec<(([u8; 32], u32, u32), &Vec<u8>, usize)>> = BTreeMap::new();
+    for &(si, pi) in ems {
+        let s = u.slots[si];
+        per.entry(u.channels[s.ch].0).or_default().push((
+            (u.scopes[s.scope], u.rules[s.rule], u.subs[s.sub]),
+            &u.payloads[pi],
+            s.ch,
+        ));
+    }
+    let mut out = RefOut { channels: vec![], errors: vec![] };
+    for (ch, mut v) in per {
+        v.sort_by(|a, b| a.0.cmp(&b.0));
+        let chi = v[0].2;
+        let p = if chi == 0 { pol.0 } else { pol.1 };
+        let vals: Vec<&Vec<u8>> = v.iter().map(|x| x.1).collect();
+        match policy_of(p).unwrap_or(ChannelPolicy::Log) {
+            ChannelPolicy::Log => {
+                let mut d = Vec::new();
+                for x in &vals {
+                    d.extend_from_slice(&(x.len() as u32).to_le_bytes());
+                    d.extend_from_slice(x);
+                }
+                out.channels.push((ch, d));
+            }
+            ChannelPolicy::StrictSingle => {
+                if vals.len() > 1 {
+                    out.errors.push((ch, vals.len(), "StrictSingleConflict".into()));
+                } else {
+                    out.channels.push((ch, vals[0].clone()));
+                }
+            }
+            ChannelPolicy::Reduce(op) => out.channels.push((ch, ref_reduce(op, &vals))),
+        }
+    }
+    out
+}
+
+/// Documented wire format of `compute_emissions_digest` (snapshot.rs doc comment).
+fn ref_digest(channels_sorted: &[([u8; 32], Vec<u8>)]) -> [u8; 32] {
+    let mut h = blake3::Hasher::new();
+    h.update(&1u16.to_le_bytes());
+    h.update(&(channels_sorted.len() as u64).to_le_bytes());
+    for (c, d) in channels_sorted {
+        h.update(c);
+        h.update(&(d.len() as u64).to_le_bytes());
+        h.update(d);
+    }
+    *h.finalize().as_bytes()
+}
+
+/// Documented MBUS v1 frame format (frame.rs module doc).
+fn ref_frames(channels: &[([u8; 32], Vec<u8>)]) -> Vec<u8> {
+    let mut b = Vec::new();
+    for (c, d) in channels {
+        b.extend_from_slice(b"MBUS");
+        b.extend_from_slice(&1u16.to_le_bytes());
+        b.extend_from_slice(&0u16.to_le_bytes());
+        b.extend_from_slice(&((32 + d.len()) as u32).to_le_bytes());
+        b.extend_from_slice(c);
+        b.extend_from_slice(d);
+    }
+    b
+}
+
+/// Documented MBUS v2 packet format (frame_v2.rs module doc).
+fn ref_v2(u: &U, channels: &[([u8; 32], Vec<u8>)]) -> Vec<u8> {
+    let mut p = Vec::new();
+    p.extend_from_slice(&u.header.session_id);
+    p.extend_from_slice(&u.header.cursor_id);
+    p.extend_from_slice(&u.header.worldline_id);
+    p.extend_from_slice(&u.header.warp_id.0);
+    p.extend_from_slice(&u.header.tick.to_le_bytes());
+    p.extend_from_slice(&u.header.commit_hash);
+    p.extend_from_slice(&(channels.len() as u32).to_le_bytes());
+    for (c, d) in channels {
+        p.extend_from_slice(c);
+        p.extend_from_slice(blake3::hash(d).as_bytes());
+        p.extend_from_slice(&(d.len() as u32).to_le_bytes());
+        p.extend_from_slice(d);
+    }
+    let mut b = Vec::new();
+    b.extend_from_slice(b"MBUS");
+    b.extend_from_slice(&2u16.to_le_bytes());
+    b.extend_from_slice(&0u16.to_le_bytes());
+    b.extend_from_slice(&(p.len() as u32).to_le_bytes());
+    b.extend_from_slice(&p);
+    b
+}
+
+// ───────────────────────────── per-work-item accumulator ─────────────────────────────
+
+#[derive(Default)]
+struct Acc {
+    runs: u64,
+    conflicts: u64,
+    strict_ok: u64,
+    dup_rejected: u64,
+    multi_channel_cases: u64,
+    rekey_classes_multi: u64,
+    digest_slice_perms: u64,
+    viol: Vec<(String, Value)>,
+    outputs: BTreeMap<usize, BTreeSet<u64>>, // policy option -> distinct output fingerprints
+    nontrivial: Vec<u128>,
+    mach: Vec<String>,
+}
+
+impl Acc {
+    fn v(&mut self, sig: String, detail: Value) {
+        if self.viol.len() < 4 || !self.viol.iter().any(|(s, _)| *s == sig) {
+            if self.viol.len() < 64 {
+                self.viol.push((sig, detail));
+            }
+        }
+    }
+    fn out(&mut self, pol: usize, data: &[u8]) {
+        let mut a = [0u8; 8];
+        a.copy_from_slice(&blake3::hash(data).as_bytes()[..8]);
+        self.outputs.entry(pol).or_default().insert(u64::from_le_bytes(a));
+    }
+    fn merge(&mut self, o: Acc) {
+        self.runs += o.runs;
+        self.conflicts += o.conflicts;
+        self.strict_ok += o.strict_ok;
+        self.dup_rejected += o.dup_rejected;
+        self.multi_channel_cases += o.multi_channel_cases;
+        self.rekey_classes_multi += o.rekey_classes_multi;
+        self.digest_slice_perms += o.digest_slice_perms;
+        self.viol.extend(o.viol);
+        for (k, s) in o.outputs {
+            self.outputs.entry(k).or_default().extend(s);
+        }
+        self.nontrivial.extend(o.nontrivial);
+        self.mach.extend(o.mach);
+    }
+}
+
+fn case_json(u: &U, ems: &[Em], order: &[usize], pol: (usize, usize)) -> Value {
+    json!({
+        "slots": ems.iter().map(|e| e.0).collect::<Vec<_>>(),
+        "payloads": ems.iter().map(|e| e.1).collect::<Vec<_>>(),
+        "order": order,
+        "policy": [pol.0, pol.1],
+        "readable": {
+            "emissions_in_emit_order": order.iter().map(|&i| {
+                let s = u.slots[ems[i].0];
+                json!({"channel": CHN[s.ch], "scope": mc::hex(&u.scopes[s.scope][..2]).to_string() + "..", "rule": u.rules[s.rule], "subkey": u.subs[s.sub], "payload": mc::hex(&u.payloads[ems[i].1])})
+            }).collect::<Vec<_>>(),
+            "policy": [policy_name(pol.0), policy_name(pol.1)],
+        }
+    })
+}
+
+fn pol_for_channel(u: &U, ch: &[u8; 32], pol: (usize, usize)) -> usize {
+    if *ch == u.channels[0].0 {
+        pol.0
+    } else {
+        pol.1
+    }
+}
+
+/// Name the policy of the first channel on which two observations differ.
+fn differing_policy(u: &U, a: &Outcome, b: &Outcome, pol: (usize, usize)) -> String {
+    for c in &u.channels {
+        let fa = a.channels.iter().find(|x| x.0 == c.0);
+        let fb = b.channels.iter().find(|x| x.0 == c.0);
+        let ea = a.errors.iter().find(|x| x.0 == c.0);
+        let eb = b.errors.iter().find(|x| x.0 == c.0);
+        if fa != fb || ea != eb {
+            return policy_name(pol_for_channel(u, &c.0, pol));
+        }
+    }
+    "channel-order".into()
+}
+
+/// Compare an observation with the reference; records violations.
+fn check_against_reference(u: &U, acc: &mut Acc, o: &Outcome, ems: &[Em], order: &[usize], pol: (usize, usize), light: bool) {
+    let r = reference_finalize(u, ems, pol);
+    if o.channels != r.channels || o.errors != r.errors {
+        let ro = Outcome { channels: r.channels.clone(), errors: r.errors.clone(), digest: [0; 32], frames: vec![], v2: vec![] };
+        let p = differing_policy(u, o, &ro, pol);
+        acc.v(
+            format!("finalize differs from key-order reference fold: {p}"),
+            json!({"case": case_json(u, ems, order, pol),
+                   "got": fmt_out(o), "want_channels": fmt_ch(&r.channels), "want_errors": format!("{:?}", r.errors.iter().map(|e| (mc::hex(&e.0[..4]), e.1, e.2.clone())).collect::<Vec<_>>())}),
+        );
+        return;
+    }
+    if o.digest != ref_digest(&r.channels) {
+        acc.v("compute_emissions_digest differs from documented wire format".into(), json!({"case": case_json(u, ems, order, pol)}));
+    }
+    if !light {
+        if o.frames != ref_frames(&r.channels) {
+            acc.v("encode_frames differs from documented MBUS v1 format".into(), json!({"case": case_json(u, ems, order, pol)}));
+        }
+        if o.v2 != ref_v2(u, &r.channels) {
+            acc.v("encode_v2_packet differs from documented MBUS v2 format".into(), json!({"case": case_json(u, ems, order, pol)}));
+        }
+    }
+}
+
+fn fmt_ch(c: &[([u8; 32], Vec<u8>)]) -> Value {
+    json!(c.iter().map(|(c, d)| json!({"channel": mc::hex(&c[..4]), "data": mc::hex(d)})).collect::<Vec<_>>())
+}
+fn fmt_out(o: &Outcome) -> Value {
+    json!({"channels": fmt_ch(&o.channels), "errors": o.errors.iter().map(|e| json!({"channel": mc::hex(&e.0[..4]), "emission_count": e.1, "kind": e.2})).collect::<Vec<_>>(), "digest": mc::hex(&o.digest)})
+}
+
+fn record_outputs(u: &U, acc: &mut Acc, o: &Outcome, pol: (usize, usize)) {
+    for (c, d) in &o.channels {
+        let p = pol_for_channel(u, c, pol);
+        acc.out(p, d);
+        if p == 2 {
+            acc.strict_ok += 1;
+        }
+    }
+    acc.conflicts += o.errors.len() as u64;
+}
+
+fn policy_pairs(touches: (bool, bool)) -> Vec<(usize, usize)> {
+    let mut v = Vec::new();
+    match touches {
+        (true, true) => {
+            for a in 0..N_POL {
+                for b in 0..N_POL {
+                    v.push((a, b));
+                }
+            }
+        }
+        (true, false) => (0..N_POL).for_each(|a| v.push((a, 0))),
+        (false, true) => (0..N_POL).for_each(|b| v.push((0, b))),
+        (false, false) => v.push((0, 0)),
+    }
+    v
+}
+
+fn touches(u: &U, slots: &[usize]) -> (bool, bool) {
+    (
+        slots.iter().any(|&s| u.slots[s].ch == 0),
+        slots.iter().any(|&s| u.slots[s].ch == 1),
+    )
+}
+
+fn has_multi(u: &U, slots: &[usize]) -> bool {
+    let a = slots.iter().filter(|&&s| u.slots[s].ch == 0).count();
+    let b = slots.len() - a;
+    a >= 2 || b >= 2
+}
+
+fn case_key(ems: &[Em]) -> u128 {
+    let mut k = Vec::with_capacity(ems.len() * 2 + 1);
+    for e in ems {
+        k.push(e.0 as u8);
+        k.push(e.1 as u8);
+    }
+    Report::key(&k)
+}
+
+// ───────────────────────────── phase A ─────────────────────────────
+
+/// Payload assignment family of phase A: 6 rotations and 6 reflected rotations of the payload
+/// list over the set's slots (injective for k ≤ 6, so every slot is distinguishable).
+fn family_a(k: usize, reflected: bool) -> Vec<Vec<usize>> {
+    let mut f = Vec::new();
+    for r in 0..6usize {
+        f.push((0..k).map(|i| (i + r) % 6).collect());
+    }
+    for r in 0..(if reflected { 6usize } else { 0 }) {
+        f.push((0..k).map(|i| (r + 6 * k - i) % 6).collect());
+    }
+    f
+}
+
+fn phase_a_item(u: &U, slots: &[usize], pays: &[usize]) -> Acc {
+    let mut acc = Acc::default();
+    let k = slots.len();
+    let ems: Vec<Em> = slots.iter().copied().zip(pays.iter().copied()).collect();
+    if has_multi(u, slots) {
+        acc.nontrivial.push(case_key(&ems));
+        acc.multi_channel_cases += 1;
+    }
+    let perms = mc::enumerate::all_permutations(k);
+    for pol in policy_pairs(touches(u, slots)) {
+        let mut first: Option<Outcome> = None;
+        for (pi, order) in perms.iter().enumerate() {
+            // alternate the two public emission paths so both are covered for every case
+            let scoped = pi % 2 == 0;
+            acc.runs += 1;
+            let (o, fin) = match run(u, &ems, order, pol, scoped, false) {
+                Ok(x) => x,
+                Err(e) => {
+                    acc.v(format!("emit/finalize protocol: {}", e.split(':').next().unwrap_or("")), json!({"case": case_json(u, &ems, order, pol), "error": e}));
+                    continue;
+                }
+            };
+            match &first {
+                None => {
+                    check_against_reference(u, &mut acc, &o, &ems, order, pol, false);
+                    record_outputs(u, &mut acc, &o, pol);
+                    // digest must not depend on the order of the finalized-channel slice either
+                    let n = fin.len();
+                    mc::enumerate::permutations(n, |p| {
+                        let shuffled: Vec<FinalizedChannel> = p.iter().map(|&i| fin[i].clone()).collect();
+                        acc.digest_slice_perms += 1;
+                        if compute_emissions_digest(&shuffled) != o.digest {
+                            acc.v("compute_emissions_digest depends on the order of the channel slice".into(),
+                                json!({"case": case_json(u, &ems, order, pol), "slice_order": p}));
+                        }
+                    });
+                    // decoders agree with what was encoded (frames carry exactly the finalized bytes)
+                    let dec = decode_frames(&o.frames).map(|v| v.into_iter().map(|f| (f.channel.0, f.data)).collect::<Vec<_>>());
+                    if dec.as_ref() != Some(&o.channels) {
+                        acc.v("decode_frames(encode_frames(finalized)) != finalized".into(), json!({"case": case_json(u, &ems, order, pol)}));
+                    }
+                    let dec2 = decode_v2_packet(&o.v2).ok().map(|p| p.entries.into_iter().map(|e| (e.channel.0, e.value)).collect::<Vec<_>>());
+                    if dec2.as_ref() != Some(&o.channels) {
+                        acc.v("decode_v2_packet(encode_v2_packet(finalized)) != finalized".into(), json!({"case": case_json(u, &ems, order, pol)}));
+                    }
+                    // the port delivers exactly these frames
+                    let mut port = MaterializationPort::new();
+                    port.subscribe(u.channels[0]);
+                    port.subscribe(u.channels[1]);
+                    port.receive_finalized(fin.clone());
+                    if port.drain_encoded() != o.frames {
+                        acc.v("MaterializationPort::drain_encoded differs from encode_frames(finalized)".into(), json!({"case": case_json(u, &ems, order, pol)}));
+                    }
+                    first = Some(o);
+                }
+                Some(f) => {
+                    if o != *f {
+                        let what = if o.channels != f.channels || o.errors != f.errors {
+                            format!("finalize depends on emission order: {}", differing_policy(u, &o, f, pol))
+                        } else if o.digest != f.digest {
+                            "emissions digest depends on emission order".to_string()
+                        } else {
+                            "frame encoding depends on emission order".to_string()
+                        };
+                        acc.v(what, json!({"case": case_json(u, &ems, order, pol), "got": fmt_out(&o), "first_order": perms[0], "first_got": fmt_out(f)}));
+                    }
+                }
+            }
+        }
+    }
+    acc
+}
+
+// ───────────────────────────── phase B ─────────────────────────────
+
+fn phase_b_item(u: &U, slots: &[usize]) -> Acc {
+    let mut acc = Acc::default();
+    let k = slots.len();
+    let asc: Vec<usize> = (0..k).collect();
+    let desc: Vec<usize> = (0..k).rev().collect();
+    let multi = has_multi(u, slots);
+    let t = touches(u, slots);
+    // (policy, channel, sorted payload multiset) -> (output, number of arrangements seen)
+    let mut classes: std::collections::HashMap<(usize, usize, u64), (Vec<u8>, u64, Vec<usize>)> = std::collections::HashMap::new();
+    mc::enumerate::sequences(6, k, |pays| {
+        let ems: Vec<Em> = slots.iter().copied().zip(pays.iter().copied()).collect();
+        if multi {
+            acc.nontrivial.push(case_key(&ems));
+        }
+        for p in 0..N_POL {
+            let pol = (if t.0 { p } else { 0 }, if t.1 { p } else { 0 });
+            let mut prev: Option<Outcome> = None;
+            for (oi, order) in [&asc, &desc].into_iter().enumerate() {
+                if k < 2 && oi == 1 {
+                    continue;
+                }
+                acc.runs += 1;
+                let (o, _fin) = match run(u, &ems, order, pol, false, true) {
+                    Ok(x) => x,
+                    Err(e) => {
+                        acc.v(format!("emit/finalize protocol: {}", e.split(':').next().unwrap_or("")), json!({"case": case_json(u, &ems, order, pol), "error": e}));
+                        continue;
+                    }
+                };
+                if let Some(f) = &prev {
+                    if o != *f {
+                        acc.v(format!("finalize depends on emission order: {}", differing_policy(u, &o, f, pol)),
+                            json!({"case": case_json(u, &ems, order, pol), "got": fmt_out(&o), "first_order": asc, "first_got": fmt_out(f)}));
+                    }
+                    continue;
+                }
+                check_against_reference(u, &mut acc, &o, &ems, order, pol, true);
+                record_outputs(u, &mut acc, &o, pol);
+                // re-keying closure for reducers that DECLARE commutativity
+                if let Some(ChannelPolicy::Reduce(op)) = policy_of(p) {
+                    if op.is_commutative() {
+                        for ch in 0..2usize {
+                            let mut ms: Vec<usize> = ems.iter().filter(|e| u.slots[e.0].ch == ch).map(|e| e.1).collect();
+                            if ms.is_empty() {
+                                continue;
+                            }
+                            ms.sort();
+                            let got = o.channels.iter().find(|c| c.0 == u.channels[ch].0).map(|c| c.1.clone()).unwrap_or_default();
+                            let msk = ms.iter().fold(1u64, |a, x| a * 8 + *x as u64);
+                            match classes.get_mut(&(p, ch, msk)) {
+                                None => {
+                                    classes.insert((p, ch, msk), (got, 1, pays.to_vec()));
+                                }
+                                Some(e) => {
+                                    e.1 += 1;
+                                    if e.0 != got {
+                                        acc.v(format!("declared-commutative reducer not invariant under re-keying: {:?}", op),
+                                            json!({"case": case_json(u, &ems, order, pol), "got": mc::hex(&got), "other_assignment_payloads": e.2, "other_got": mc::hex(&e.0), "channel": CHN[ch]}));
+                                    }
+                                }
+                            }
+                        }
+                    }
+                }
+                prev = Some(o);
+            }
+        }
+    });
+    acc.rekey_classes_multi = classes.values().filter(|e| e.1 >= 2).count() as u64;
+    acc
+}
+
+// ───────────────────────────── phase C ─────────────────────────────
+
+fn phase_c_item(u: &U, slots: &[usize]) -> Acc {
+    let mut acc = Acc::default();
+    let k = slots.len();
+    let pays: Vec<usize> = (0..k).map(|i| (i + 1) % 6).collect();
+    let ems: Vec<Em> = slots.iter().copied().zip(pays.iter().copied()).collect();
+    let perms = mc::enumerate::all_permutations(k);
+    let t = touches(u, slots);
+    for p in 0..N_POL {
+        let pol = (if t.0 { p } else { 0 }, if t.1 { p } else { 0 });
+        for order in &perms {
+            let clean = match run(u, &ems, order, pol, false, true) {
+                Ok(x) => x.0,
+                Err(e) => {
+                    acc.mach.push(e);
+                    continue;
+                }
+            };
+            acc.runs += 1;
+            // duplicate of the emission at position i, re-emitted right after position j ≥ i, payload q
+            for i in 0..k {
+                for j in i..k {
+                    for q in 0..6usize {
+                        acc.runs += 1;
+                        let bus = new_bus(u, pol);
+                        let mut rejected = None;
+                        for (pos, &e) in order.iter().enumerate() {
+                            let _ = emit_one(u, &bus, ems[e], pos % 2 == 1);
+                            if pos == j {
+                                let d = (ems[order[i]].0, q);
+                                rejected = Some(emit_one(u, &bus, d, q % 2 == 0));
+                            }
+                        }
+                        let s = u.slots[ems[order[i]].0];
+                        let same = if q == ems[order[i]].1 { "identical" } else { "different" };
+                        let dupcase = || json!({"case": case_json(u, &ems, order, pol), "dup": {"of_position": i, "after_position": j, "payload": q}});
+                        match rejected {
+                            Some(Err((c, key))) => {
+                                acc.dup_rejected += 1;
+                                if c != u.channels[s.ch] || key != u.key(s) {
+                                    acc.v("DuplicateEmission names the wrong channel/key".into(), dupcase());
+                                }
+                            }
+                            Some(Ok(())) => {
+                                acc.v(format!("repeated (channel,key) emission accepted ({same} payload)"), dupcase());
+                            }
+                            None => acc.mach.push("duplicate not attempted".into()),
+                        }
+                        let (o, _) = observe(u, &bus, true);
+                        if o != clean {
+                            acc.v(format!("rejected duplicate altered earlier emissions ({same} payload): {}", differing_policy(u, &o, &clean, pol)),
+                                { let d = dupcase(); json!({"case": d["case"], "dup": d["dup"], "got": fmt_out(&o), "want": fmt_out(&clean)}) });
+                        }
+                    }
+                }
+            }
+        }
+    }
+    acc
+}
+
+// ───────────────────────────── replay ─────────────────────────────
+
+fn replay(u: &U, r: &Report, path: &std::path::Path) {
+    let txt = std::fs::read_to_string(path).unwrap_or_default();
+    let v: Value = serde_json::from_str(&txt).unwrap_or(Value::Null);
+    let c = &v["detail"]["case"];
+    let us = |x: &Value| x.as_array().map(|a| a.iter().map(|y| y.as_u64().unwrap_or(0) as usize).collect::<Vec<_>>()).unwrap_or_default();
+    let slots = us(&c["slots"]);
+    let pays = us(&c["payloads"]);
+    let order = us(&c["order"]);
+    let polv = us(&c["policy"]);
+    if slots.is_empty() || slots.len() != pays.len() || order.len() != slots.len() || polv.len() != 2 {
+        r.machinery_error("replay file has no usable detail.case");
+        return;
+    }
+    let pol = (polv[0], polv[1]);
+    let ems: Vec<Em> = slots.iter().copied().zip(pays.iter().copied()).collect();
+    let mut acc = Acc::default();
+    let ident: Vec<usize> = (0..ems.len()).collect();
+    let dup = &v["detail"]["dup"];
+    if dup.is_object() {
+        let (i, j, q) = (dup["of_position"].as_u64().unwrap_or(0) as usize, dup["after_position"].as_u64().unwrap_or(0) as usize, dup["payload"].as_u64().unwrap_or(0) as usize);
+        let bus = new_bus(u, pol);
+        let mut res = None;
+        for (pos, &e) in order.iter().enumerate() {
+            let _ = emit_one(u, &bus, ems[e], false);
+            if pos == j {
+                res = Some(emit_one(u, &bus, (ems[order[i]].0, q), false));
+            }
+        }
+        let (o, _) = observe(u, &bus, true);
+        let clean = run(u, &ems, &order, pol, false, true).map(|x| x.0);
+        println!("[C18 replay] duplicate emit result: {:?}", res.map(|r| r.is_err()).map(|e| if e { "Err(DuplicateEmission)" } else { "Ok (ACCEPTED)" }));
+        println!("[C18 replay] with dup:    {}", fmt_out(&o));
+        if let Ok(cl) = &clean {
+            println!("[C18 replay] without dup: {}", fmt_out(cl));
+            if *cl != o || matches!(res, Some(Ok(()))) {
+                acc.v(v["signature"].as_str().unwrap_or("replayed").to_string(), v["detail"].clone());
+            }
+        }
+    } else {
+        let a = run(u, &ems, &order, pol, false, false);
+        let b = run(u, &ems, &ident, pol, false, false);
+        match (a, b) {
+            (Ok((oa, fin)), Ok((ob, _))) => {
+                println!("[C18 replay] order {:?}: {}", order, fmt_out(&oa));
+                println!("[C18 replay] order {:?}: {}", ident, fmt_out(&ob));
+                let rf = reference_finalize(u, &ems, pol);
+                println!("[C18 replay] reference channels: {}", fmt_ch(&rf.channels));
+                check_against_reference(u, &mut acc, &oa, &ems, &order, pol, false);
+                check_against_reference(u, &mut acc, &ob, &ems, &ident, pol, false);
+                if oa != ob {
+                    acc.v(format!("finalize depends on emission order: {}", differing_policy(u, &oa, &ob, pol)), v["detail"].clone());
+                }
+                let mut rev = fin.clone();
+                rev.reverse();
+                if compute_emissions_digest(&rev) != oa.digest {
+                    acc.v("compute_emissions_digest depends on the order of the channel slice".into(), v["detail"].clone());
+                }
+            }
+            (a, b) => println!("[C18 replay] run error: {:?} {:?}", a.err(), b.err()),
+        }
+    }
+    r.eval(1);
+    println!("[C18 replay] reproduced {} violation(s)", acc.viol.len());
+    for (s, d) in acc.viol {
+        r.violation(&s, d);
+    }
+}
+
+// ───────────────────────────── main ─────────────────────────────
 
 fn main() {
     let r = Report::new("C18", Level::Exploration);
-    r.machinery_error("check not implemented yet");
+    let u = U::new();
+    if let Some(p) = r.replay.clone() {
+        r.rule("replay of one recorded case");
+        r.nontrivial(b"replay-a");
+        r.nontrivial(b"replay-b");
+        r.sample(json!({"replay": p.display().to_string()}));
+        replay(&u, &r, &p);
+        r.finish();
+    }
+
+    let k_max = r.pick(5usize, 7usize);
+    let slots_a = r.pick(8usize, 10usize);
+    let slots_b = 8usize;
+    let k_dup = r.pick(4usize, 5usize);
+    let fam_reflected = r.thorough();
+    let fam_n = if fam_reflected { 12 } else { 6 };
+    r.rule(&format!(
+        "Universe: 2 channels; slot alphabet of {slots_a} (phase A) / {slots_b} (phases B, C) (channel,key) slots drawn from 3 scope hashes x rule ids {{1,256}} x subkeys {{0,0x01000000}}; \
+         payloads {{'',01,FF,0102,FFx8,9 bytes}}; 11 policy options per channel (unregistered, Log, StrictSingle, Reduce x 8 ops). \
+         Phase A: EVERY slot set of size 0..={k_max} x {fam_n} payload assignments (6 rotations of the payload list over the slots; thorough adds the 6 reflected rotations; injective for k<=6) x EVERY permutation of the emission order x every policy pair (121 when both channels are touched); \
+         all observations (finalize channels+errors, emissions digest, v1 frames, v2 packet) must be identical across permutations and equal to a key-order reference fold; digest also under every order of the finalized slice. \
+         Phase B: every slot set of size 0..={k_max} x ALL 6^k payload assignments x every policy (same on both channels) x 2 emission orders (ascending/descending); reference fold; for reducers with is_commutative() every arrangement of a payload multiset on the keys of a channel must give the same bytes. \
+         Phase C: every slot set of size 1..={k_dup} x every permutation x every (emitted position i, later position j>=i, payload q of 6): re-emitting slot i after position j must be Err(DuplicateEmission) naming that (channel,key) and the finalized result must equal the run without the duplicate. \
+         distinct_nontrivial = distinct (slot set, payload assignment) cases in which some channel received >= 2 emissions (order could matter)."
+    ));
+    r.assume("keys/payloads outside the stated alphabets are not explored; payloads > 9 bytes and the 4 GiB length limits are out of scope");
+    r.assume("reference folds for the five documented commutative monoids operate on the sorted payload multiset; First/Last/Concat/Log on (scope bytes, rule, subkey) lexicographic order");
+    r.assume("BLAKE3 and the documented wire layouts (snapshot.rs / frame.rs / frame_v2.rs doc comments) are the reference for digest and frames");
+
+    // samples (deterministic, before the parallel sweep)
+    {
+        let ems: Vec<Em> = vec![(4, 5), (0, 1), (5, 2), (2, 3)];
+        for (pol, order) in [((3usize, 10usize), vec![3usize, 1, 0, 2]), ((1, 2), vec![0, 1, 2, 3]), ((7, 2), vec![2, 0, 3, 1])] {
+            if let Ok((o, _)) = run(&u, &ems, &order, pol, true, false) {
+                r.sample(json!({"phase": "A", "case": case_json(&u, &ems, &order, pol)["readable"], "observed": fmt_out(&o), "frames_len": o.frames.len(), "v2_len": o.v2.len()}));
+            }
+        }
+    }
+
+    let declared: Vec<String> = OPS.iter().filter(|o| o.is_commutative()).map(|o| format!("{o:?}")).collect();
+    r.note("declared_commutative", json!(declared));
+
+    let mut total = Acc::default();
+
+    // Phase A
+    let sets_a = mc::enumerate::subsets_range(slots_a, 0, k_max);
+    let items_a: Vec<(Vec<usize>, Vec<usize>)> = sets_a
+        .iter()
+        .flat_map(|s| {
+            let fam = if s.is_empty() { vec![vec![]] } else { family_a(s.len(), fam_reflected) };
+            fam.into_iter().map(move |f| (s.clone(), f))
+        })
+        .collect();
+    let mut capped = false;
+    let res: Vec<Option<Acc>> = items_a
+        .par_iter()
+        .map(|(s, f)| if r.over_budget_frac(0.6) { None } else { Some(phase_a_item(&u, s, f)) })
+        .collect();
+    let mut a_runs = 0;
+    for x in res {
+        match x {
+            Some(a) => {
+                a_runs += a.runs;
+                total.merge(a)
+            }
+            None => capped = true,
+        }
+    }
+    if capped {
+        r.cap_hit("phase A stopped by wall cap before all (set, payload family) items were done");
+    }
+    r.counter("phaseA_sets", sets_a.len() as u64);
+    r.counter("phaseA_items", items_a.len() as u64);
+    r.counter("phaseA_bus_runs", a_runs);
+    println!("[C18] phase A done: {} sets, {} bus runs, {:.1}s", sets_a.len(), a_runs, r.elapsed_s());
+
+    // Phase B
+    let sets_b = mc::enumerate::subsets_range(slots_b, 0, k_max);
+    let mut capped = false;
+    let res: Vec<Option<Acc>> = sets_b
+        .par_iter()
+        .map(|s| if r.over_budget_frac(0.85) { None } else { Some(phase_b_item(&u, s)) })
+        .collect();
+    let mut b_runs = 0;
+    for x in res {
+        match x {
+            Some(a) => {
+                b_runs += a.runs;
+                total.merge(a)
+            }
+            None => capped = true,
+        }
+    }
+    if capped {
+        r.cap_hit("phase B stopped by wall cap");
+    }
+    r.counter("phaseB_sets", sets_b.len() as u64);
+    r.counter("phaseB_bus_runs", b_runs);
+    println!("[C18] phase B done: {} sets, {} bus runs, {:.1}s", sets_b.len(), b_runs, r.elapsed_s());
+
+    // Phase C
+    let sets_c = mc::enumerate::subsets_range(slots_b, 1, k_dup);
+    let mut capped = false;
+    let res: Vec<Option<Acc>> = sets_c
+        .par_iter()
+        .map(|s| if r.over_budget_frac(0.97) { None } else { Some(phase_c_item(&u, s)) })
+        .collect();
+    let mut c_runs = 0;
+    for x in res {
+        match x {
+            Some(a) => {
+                c_runs += a.runs;
+                total.merge(a)
+            }
+            None => capped = true,
+        }
+    }
+    if capped {
+        r.cap_hit("phase C stopped by wall cap");
+    }
+    r.counter("phaseC_sets", sets_c.len() as u64);
+    r.counter("phaseC_bus_runs", c_runs);
+    println!("[C18] phase C done: {} sets, {} bus runs, {:.1}s", sets_c.len(), c_runs, r.elapsed_s());
+
+    // merge into the report
+    r.eval(total.runs);
+    r.nontrivial_many(total.nontrivial.iter().copied());
+    r.counter("strict_single_conflicts_seen", total.conflicts);
+    r.counter("strict_single_ok_seen", total.strict_ok);
+    r.counter("duplicate_rejections_seen", total.dup_rejected);
+    r.counter("cases_with_two_emissions_on_a_channel", total.multi_channel_cases);
+    r.counter("rekey_classes_with_2plus_arrangements", total.rekey_classes_multi);
+    r.counter("digest_slice_orders_checked", total.digest_slice_perms);
+    let mut per_policy = serde_json::Map::new();
+    for p in 0..N_POL {
+        let n = total.outputs.get(&p).map(|s| s.len()).unwrap_or(0);
+        per_policy.insert(policy_name(p), json!(n));
+        r.outcome_n(&format!("distinct_outputs:{}", policy_name(p)), n as u64);
+        r.guard(&format!("policy_{}_produced_2plus_distinct_outputs", policy_name(p)), n >= 2);
+    }
+    r.note("distinct_outputs_per_policy", Value::Object(per_policy));
+    r.outcome_n("channel_conflict:StrictSingleConflict", total.conflicts);
+    r.outcome_n("emit:Err(DuplicateEmission)", total.dup_rejected);
+    r.guard("saw_strict_single_conflicts", total.conflicts > 0);
+    r.guard("saw_strict_single_success", total.strict_ok > 0);
+    r.guard("saw_duplicate_rejections", total.dup_rejected > 0);
+    r.guard("saw_rekey_classes_with_several_arrangements", total.rekey_classes_multi > 0);
+    r.guard("five_reducers_declare_commutativity_or_fewer", declared.len() <= 8);
+    for m in total.mach {
+        r.machinery_error(&m);
+    }
+    for (s, d) in total.viol {
+        r.violation(&s, d);
+    }
     r.finish();
 }
